@@ -349,15 +349,21 @@ def gen_real(rng, thorough=False):
     lin = rng.random() < 0.35
     step = rng.choice([1.0, 1.5, 2.0]) if lin else rng.choice([0.1, 0.1, 0.15, 0.2])
     sma0 = rng.choice([6.0, 8.0, 10.0, rng.uniform(5, 12)])
+    sma0 = max(sma0, 2.5 / (1.0 - eps))             # the first ellipse is itself resolved (semi-minor axis >= 2.5)
     minsma = rng.choice([0.0, 0.0, 2.0, 3.0, sma0 - 0.3, sma0 * 0.93])
     maxsma = rng.choice([None, size / 4, size / 3, size / 3.5])
     fixes = rng.choice([(False, False, False)] * 4 + [(True, False, False), (False, True, False),
                                                       (False, False, True), (True, True, False),
                                                       (False, True, True), (True, False, True)])
     # initial geometry within the basin of convergence; fixed parameters start at the truth
-    gx = x0 if fixes[0] else x0 + rng.uniform(-1.5, 1.5)
-    gy = y0 if fixes[0] else y0 + rng.uniform(-1.5, 1.5)
-    gpa = pa if fixes[1] else (pa + rng.uniform(-0.35, 0.35))
+    # the basin shrinks with the semi-minor axis of the first ellipse: offsets of the centre stay below
+    # a quarter of it (at most 1.5 pixel), those of the PA below what moves the tip by a quarter of it
+    b0 = sma0 * (1.0 - eps)
+    dmax = min(1.5, 0.25 * b0)
+    amax = min(0.35, 0.25 * (1.0 - eps) / max(eps, 0.1))
+    gx = x0 if fixes[0] else x0 + rng.uniform(-dmax, dmax)
+    gy = y0 if fixes[0] else y0 + rng.uniform(-dmax, dmax)
+    gpa = pa if fixes[1] else (pa + rng.uniform(-amax, amax))
     geps = eps if fixes[2] else min(0.85, max(0.05, eps + rng.uniform(-0.15, 0.15)))
     if fixes[0] and rng.random() < 0.5:
         gx, gy = float(round(gx)), float(round(gy))          # exact-lattice fixed centre
